@@ -1,5 +1,7 @@
 pub mod c04;
+pub mod c11;
+pub mod c16;
 
 pub fn all() -> Vec<crate::Prop> {
-    vec![c04::prop()]
+    vec![c04::prop(), c11::prop(), c16::prop()]
 }
